@@ -178,6 +178,15 @@ class C20(Oracle):
                              'root_holds': short(via_x), 'transient_view_holds': short(via_t)}, culprit)
                 return
             w.bump('chained_setitem_root_checked')
+        # -- a derivation returns a NEW object: handing back an object that already exists (the source
+        #    itself, say) ties the 'result' to it in everything - config, status, buffer
+        if st.outcome == 'ok' and st.kind in ('derive', 'construct') and st.reg_expected is None and \
+                isinstance(st.ret, Fxp) and not st.new and st.ret_slot is not None and \
+                not st.extra.get('shallow') and st.op['op'] not in ('shallow', 'acc_copy'):
+            w.violation('C20', 'shared-identity', st,
+                        {'what': 'the operation returned an object that already existed instead of a new one',
+                         'returned_slot': st.ret_slot, 'sources': list(st.srcs)}, culprit)
+            return
         # -- structure of new objects
         if st.outcome == 'ok':
             for n in st.new:
